@@ -92,13 +92,28 @@ pub trait Arithmetic {
     fn neg(self) -> Result<Expression, Error>;
 }
 
+/// Asset arithmetic needs every amount to be a number, anything else (eg: an
+/// argument of the wrong kind that ended up in the amount position) is an error.
+fn expect_numeric_amounts(assets: &[AssetExpr], op: &str) -> Result<(), Error> {
+    match assets.iter().find(|x| x.amount.as_number().is_none()) {
+        Some(x) => Err(Error::InvalidUnaryOp(
+            op.to_string(),
+            format!("asset amount {:?}", x.amount),
+        )),
+        None => Ok(()),
+    }
+}
+
 impl<T> Arithmetic for T
 where
     T: Into<CanonicalAssets> + std::fmt::Debug,
 {
     fn add(self, other: Expression) -> Result<Expression, Error> {
         let y = match other {
-            Expression::Assets(x) => CanonicalAssets::from(x),
+            Expression::Assets(x) => {
+                expect_numeric_amounts(&x, "add")?;
+                CanonicalAssets::from(x)
+            }
             Expression::None => CanonicalAssets::empty(),
             other => {
                 return Err(Error::InvalidBinaryOp(
@@ -153,7 +168,10 @@ impl Arithmetic for Expression {
         match self {
             Expression::None => Ok(other),
             Expression::Number(x) => Arithmetic::add(x, other),
-            Expression::Assets(x) => Arithmetic::add(x, other),
+            Expression::Assets(x) => {
+                expect_numeric_amounts(&x, "add")?;
+                Arithmetic::add(x, other)
+            }
             x => Err(Error::InvalidBinaryOp(
                 "add".to_string(),
                 format!("{x:?}"),
@@ -166,7 +184,10 @@ impl Arithmetic for Expression {
         match self {
             Expression::None => Ok(other),
             Expression::Number(x) => Arithmetic::sub(x, other),
-            Expression::Assets(x) => Arithmetic::sub(x, other),
+            Expression::Assets(x) => {
+                expect_numeric_amounts(&x, "sub")?;
+                Arithmetic::sub(x, other)
+            }
             x => Err(Error::InvalidBinaryOp(
                 "sub".to_string(),
                 format!("{x:?}"),
@@ -179,7 +200,10 @@ impl Arithmetic for Expression {
         match self {
             Expression::None => Ok(Expression::None),
             Expression::Number(x) => Arithmetic::neg(x),
-            Expression::Assets(x) => Arithmetic::neg(x),
+            Expression::Assets(x) => {
+                expect_numeric_amounts(&x, "neg")?;
+                Arithmetic::neg(x)
+            }
             x => Err(Error::InvalidUnaryOp("neg".to_string(), format!("{x:?}"))),
         }
     }
